@@ -175,7 +175,8 @@ fn bdd_answer<'a, B: Robdd<'a>>(b: &'a B, p: BddPtr<'a>, n: usize, q: &Q) -> Str
             // smooth over the first k levels, k anywhere between the deepest level the
             // function mentions and all of them (S9)
             let t = BddWalker::new(n).tt(p);
-            let k0 = t.support().iter().map(|v| b.order_ref().get(VarLabel::new(*v as u64)) + 1).max().unwrap_or(0);
+            let order: Vec<usize> = (0..n).map(|l| b.order_ref().var_at_level(l).value_usize()).collect();
+            let k0 = t.support().iter().map(|v| order.iter().position(|x| x == v).unwrap_or(n - 1) + 1).max().unwrap_or(0);
             let k = k0 + x % (n - k0 + 1);
             format!("k={} {}", k, bdd_canon_string(b.smooth_(p, k)))
         }
